@@ -9,7 +9,10 @@ NEEDS_VO = ["Model/X86Enc.v", "Model/Asm.v", "Check/C03.v", "Check/Prog.v"]
 
 def prefix_items(rng, k):
     pool = [("equ", "PK%d" % k, A.num(rng.randrange(100))), ("global", ["g%d" % k]), ("config", "INSTRSET", ("str", b"i486p")),
-            ("config", "OPTIMIZE", ("num", 1)), ("config", "FILE", ("str", b"x.nas")), ("extern", ["e%d" % k]), ("config", "SECTION", ("id", ".text"))]
+            ("config", "OPTIMIZE", ("num", 1)), ("config", "FILE", ("str", b"x.nas")), ("extern", ["e%d" % k]), ("config", "SECTION", ("id", ".text")),
+            # "regardless of ... labels or data in between": statements that advance the location counter without being instructions
+            ("label", "lp%d" % k), ("mn", "DB", [A.num(rng.randrange(256)), A.num(rng.randrange(256))]), ("mn", "DW", [A.hexn(rng.randrange(65536))]),
+            ("mn", "RESB", [A.num(rng.randrange(1, 9))])]
     return rng.choice(pool)
 
 
@@ -21,6 +24,9 @@ def run(v, tier, rng):
         mode = rng.choice([16, 32])
         npre = rng.randrange(0, 6)
         pre = [prefix_items(rng, 10 * g + k) for k in range(npre)]
+        if rng.random() < 0.5:
+            pre = [("mn", "ORG", [A.hexn(rng.choice([0x7c00, 0xc200, 0x100, 0x280000]))])] + pre
+            npre += 1
         body = [GP.safe_instr(rng, mode, []) for _ in range(rng.randrange(2, 8))] + [GP.data_stmt(rng, [])]
         ids = []
         # BITS at every position of the non-instruction prefix
@@ -95,5 +101,5 @@ def run(v, tier, rng):
     if bad and not v.violations:
         v.tie_broken("correspondence model vs gosk (BITS placement / switching programs)", {"count": len(bad)})
     v.cov.update({"evaluations": len(cases), "distinct_nontrivial": nontriv,
-                  "rule": "BITS n at every position of a prefix of EQU/GLOBAL/EXTERN/bracket directives before the first instruction (and no BITS at all for 16-bit) must give identical output, walked by the decoder in mode n; programs switching mode between instruction groups compared with the concatenation of their separately assembled segments; non-trivial = undiagnosed groups",
+                  "rule": "BITS n at every position of a prefix of ORG/EQU/GLOBAL/EXTERN/bracket directives/labels/data before the first instruction (and no BITS at all for 16-bit) must give identical output, walked by the decoder in mode n; programs switching mode between instruction groups compared with the concatenation of their separately assembled segments; non-trivial = undiagnosed groups",
                   "samples": [cases[0]["srcs"][0], src[sw[0][0]]], "switching_programs": len(sw), "correspondence_mismatches": len(bad)})
